@@ -34,6 +34,12 @@ theorem u8add_ok {a b m : Nat} (h : u8add a b = .ok m) : a + b ≤ 255 ∧ m = a
   · cases h
   · cases h; omega
 
+theorem i8sub_ok {a b m : Int} (h : i8sub a b = .ok m) : m = a - b ∧ -128 ≤ a - b ∧ a - b ≤ 127 := by
+  unfold i8sub at h
+  split at h
+  · cases h
+  · cases h; omega
+
 /-! ## the law of `next_int_range` the column bounds rest on -/
 
 /-- `next_int_range(lo, hi)` stays in `[lo, hi)` (for `lo < hi`, `0 < hi`, a 31-bit draw).  Proved
@@ -100,6 +106,22 @@ theorem PatOk.add {T : Nat} {p p' : Pat} {c : Nat} {t : NoteTime} (hp : PatOk T 
 
 theorem PatOk.single {T c : Nat} {t : NoteTime} {p : Pat} (hc : c < T) (h : Pat.single c t = .ok p) :
     PatOk T p := PatOk.add (PatOk.empty T) hc h
+
+/-- a note that was added passed the `1u16 << column` check -/
+theorem Pat.add_lt16 {p p' : Pat} {c : Nat} {t : NoteTime} (h : p.add c t = .ok p') : c < 16 := by
+  unfold Pat.add Cols.insert shl16 at h
+  split at h
+  · cases h
+  · rename_i hs
+    split at hs
+    · cases hs
+    · rename_i hb
+      split at hb
+      · assumption
+      · cases hb
+
+theorem Pat.single_lt16 {p : Pat} {c : Nat} {t : NoteTime} (h : Pat.single c t = .ok p) : c < 16 :=
+  Pat.add_lt16 h
 
 theorem PatOk.append {T : Nat} {p q : Pat} (hp : PatOk T p) (hq : PatOk T q) : PatOk T (p.append q) := by
   intro n hn
@@ -312,6 +334,123 @@ theorem hitCopyLoop_ok (f : Nat → M Nat)
       obtain ⟨pat', ha, h4⟩ := bind_ok h3
       exact ih (i + 1) pat' r (by omega) (by omega) (hp.add (hf i c hi (by omega) hc) ha) h4
     · exact ih (i + 1) pat r (by omega) (by omega) hp h2
+
+theorem hitLastColumn_lt : hitLastColumn g < g.total := by
+  unfold hitLastColumn
+  split
+  · omega
+  · rename_i n _
+    have := posColumn_lt h1 n.col
+    have : posColumn g.total n.col % 256 = posColumn g.total n.col := Nat.mod_eq_of_lt (by omega)
+    omega
+
+theorem hitCoreRandom_ok (h2 : 2 ≤ g.total) (s : Osu) (r : Pat × Osu)
+    (h : hitCoreRandom A g s = .ok r) : PatOk g.total r.1 := by
+  unfold hitCoreRandom at h
+  split at h
+  · exact hitRandomNotes_ok hA g h1 h16 _ _ _ h
+  · repeat' split at h
+    all_goals first
+      | exact hitMirrored_ok hA g h1 h16 _ _ _ _ _ h2 h
+      | exact hitRandomPattern_ok hA g h1 h16 _ _ _ _ _ _ h
+
+theorem hitCoreSpecial_ok (h2 : 2 ≤ g.total) (last : Nat) (hlast : last < g.total) (s : Osu)
+    (r : Pat × Osu)
+    (h : hitCoreSpecial A g last (g.total % 256) (randomStart g.total) s = .ok r) :
+    PatOk g.total r.1 := by
+  have hrs := randomStart_le g.total
+  have hrs' := randomStart_lt h1
+  have hm : g.total % 256 = g.total := Nat.mod_eq_of_lt (by omega)
+  rw [hm] at h
+  unfold hitCoreSpecial at h
+  split at h
+  · -- REVERSE
+    obtain ⟨p, hp, h3⟩ := bind_ok h
+    cases h3
+    refine hitCopyLoop_ok hA g h1 h16 _ ?_ _ _ _ _ (Nat.le_refl _) (by omega) (PatOk.empty _) hp
+    intro i c hi hi' hf
+    obtain ⟨a, ha, hf2⟩ := bind_ok hf
+    obtain ⟨b, hb, hf3⟩ := bind_ok hf2
+    have e1 := u8add_ok ha
+    have e2 := u8sub_ok hb
+    have e3 := u8sub_ok hf3
+    omega
+  · split at h
+    · -- CYCLE
+      rename_i _ hcond
+      obtain ⟨a, ha, h3⟩ := bind_ok h
+      obtain ⟨b, hb, h4⟩ := bind_ok h3
+      obtain ⟨c, hc, h5⟩ := bind_ok h4
+      obtain ⟨p, hp, h6⟩ := bind_ok h5
+      cases h6
+      have e1 := u8add_ok ha
+      have e2 := u8sub_ok hb
+      have e3 := u8sub_ok hc
+      simp only [Bool.and_eq_true, Bool.or_eq_true, bne_iff_ne, ne_eq, decide_eq_true_eq] at hcond
+      have hge : randomStart g.total ≤ last := by
+        unfold randomStart
+        split
+        · rename_i h8
+          rcases hcond.1.2 with h | h
+          · exact absurd h8 h
+          · omega
+        · omega
+      exact PatOk.single (by omega) hp
+    · split at h
+      · -- FORCE_STACK
+        obtain ⟨p, hp, h3⟩ := bind_ok h
+        cases h3
+        refine hitCopyLoop_ok hA g h1 h16 _ ?_ _ _ _ _ (Nat.le_refl _) (by omega) (PatOk.empty _) hp
+        intro i c _ hi' hf
+        cases hf
+        exact hi'
+      · split at h
+        · -- STAIR
+          obtain ⟨t, ht, h3⟩ := bind_ok h
+          obtain ⟨p, hp, h4⟩ := bind_ok h3
+          cases h4
+          have e1 := u8add_ok ht
+          refine PatOk.single ?_ hp
+          split <;> omega
+        · split at h
+          · -- REVERSE_STAIR
+            obtain ⟨t, ht, h3⟩ := bind_ok h
+            obtain ⟨r', hr', h4⟩ := bind_ok h3
+            obtain ⟨t', ht', h5⟩ := bind_ok h4
+            obtain ⟨p, hp, h6⟩ := bind_ok h5
+            cases h6
+            have e1 := i8sub_ok ht
+            have e2 := i8sub_ok hr'
+            have hlt16 := Pat.single_lt16 hp
+            refine PatOk.single ?_ hp
+            split at ht'
+            · have e3 := i8sub_ok ht'
+              unfold asI8 at e1 e2 e3
+              unfold asU8 at hlt16 ⊢
+              omega
+            · cases ht'
+              unfold asI8 at e1 e2
+              unfold asU8 at hlt16 ⊢
+              omega
+          · exact hitCoreRandom_ok hA g h1 h16 h2 _ _ h
+
+theorem hitGenerateCore_ok (s : Osu) (r : Pat × Osu) (h : hitGenerateCore A g s = .ok r) :
+    PatOk g.total r.1 := by
+  unfold hitGenerateCore at h
+  split at h
+  · obtain ⟨p, hp, h2⟩ := bind_ok h
+    cases h2
+    exact PatOk.single (by omega) hp
+  · exact hitCoreSpecial_ok hA g h1 h16 (by omega) _ (hitLastColumn_lt hA g h1 h16) _ _ h
+
+/-- **(a) for the hit-object generator**: every note `HitObjectPatternGenerator::generate()` emits
+lies in a column below the key count. -/
+theorem hitGenerate_ok (stair : Nat) (s : Osu) (r : Pat × Osu × Nat)
+    (h : hitGenerate A g stair s = .ok r) : PatOk g.total r.1 := by
+  unfold hitGenerate at h
+  obtain ⟨⟨p, s'⟩, hc, h2⟩ := bind_ok h
+  cases h2
+  exact hitGenerateCore_ok hA g h1 h16 s _ hc
 
 end hit
 
